@@ -28,6 +28,11 @@ STEER = {
      (b) STATE THAT SURVIVES something it should not: a clone, a `build()` that is followed by further operations and a second `build()`, a sub-builder handed to the transaction builder twice, a refused call that leaves a trace, a removal that forgets one of several parallel tables;
      (c) a RARE RANDOM OUTCOME of the random-improve strategies or a rare combination of configuration options (`prefer_pure_change`, `do_not_burn_extra_change`, `deduplicate_explicit_ref_inputs_with_regular_inputs`, zero fee coefficients, zero deposits, a tiny `max_value_size` / `max_tx_size`, a reference-script price);
      (d) an INTERACTION between two features that are each tested alone (collateral + change, donation + burn, reference scripts + native scripts, Byron addresses + scripts, votes + proposals + certificates in one transaction, inline datum + datum hash of the same datum, the same script under several purposes).''',
+ '11': '''Prefer changes of one of these kinds, which earlier rounds used least:
+     (a) SHARED or CACHED state: a memo (Cell / RefCell / Rc) or lazily computed field that one of several mutators forgets to invalidate, clones that share something they should each own, a derived figure kept next to the data it is derived from;
+     (b) ORDER OF CALLS ACROSS OBJECTS: a sub-builder (inputs, mint, certificates, withdrawals, votes, proposals) that is handed to the transaction builder, modified afterwards and handed over again - or not handed over again; the builder queried (fee, size, totals, build) between two steps; the same call made twice (a retry);
+     (c) ERROR PATHS: a call that fails after it has already changed part of the state, and the caller carries on (adds more funds, retries, builds anyway with build_tx_unsafe / build);
+     (d) the SECOND of two balancing attempts, a selection after a selection, change after a removed output - anything where the first pass leaves something behind that the second pass trusts.''',
 }.get(rnd, '')
 
 TEMPLATE = '''You are helping to evaluate a verification harness by producing realistic, subtle bugs ("seeded changes") in a Rust library.
